@@ -1547,11 +1547,12 @@ func (x *Exec) lineHooks(st *State, fr *frame, in ssa.Instruction) {
 	fr.curLine = key
 	text := x.e.sourceLine(p.Filename, p.Line)
 	fr.curText = text
+	x.fireGhostSets(st, fr, ct, "pre", text)
 	if os.Getenv("P9VC_TRACE") != "" && len(ct.Ats) > 0 {
 		fmt.Fprintf(os.Stderr, "line %s: %s\n", key, strings.TrimSpace(text))
 	}
 	for i, h := range ct.Ats {
-		if h.Kind == "set" || !strings.Contains(text, h.Pattern) {
+		if h.Kind == "set" || h.Kind == "pre" || !strings.Contains(text, h.Pattern) {
 			continue
 		}
 		x.e.hookHits[ct.Name+"|"+h.Src] = true
@@ -1576,11 +1577,18 @@ func (x *Exec) fireAfter(st *State, fr *frame, ct *Contract) {
 	if fr.curLine == "" {
 		return
 	}
+	x.fireGhostSets(st, fr, ct, "set", fr.curText)
+	fr.curText = ""
+}
+
+// fireGhostSets runs the ghost assignments of kind `set` (after a line) or `pre` (before a line) whose pattern occurs in
+// the line's text. A `pre` hook that names a local which does not exist on this path does not apply there (the same
+// source text may occur in several branches).
+func (x *Exec) fireGhostSets(st *State, fr *frame, ct *Contract, kind, text string) {
 	for _, h := range ct.Ats {
-		if h.Kind != "set" || !strings.Contains(fr.curText, h.Pattern) {
+		if h.Kind != kind || !strings.Contains(text, h.Pattern) {
 			continue
 		}
-		x.e.hookHits[ct.Name+"|"+h.Src] = true
 		g := x.e.ghosts[h.Ghost]
 		if g == nil {
 			x.errs = append(x.errs, "at set: unknown ghost "+h.Ghost)
@@ -1590,6 +1598,9 @@ func (x *Exec) fireAfter(st *State, fr *frame, ct *Contract) {
 			defer func() {
 				if r := recover(); r != nil {
 					if se, ok := r.(specError); ok {
+						if kind == "pre" && strings.Contains(se.msg, "unknown identifier") {
+							return
+						}
 						x.errs = append(x.errs, se.msg)
 						x.oblige(st, fr.fn, "contract-error", "at set "+h.Ghost, "false")
 						return
@@ -1611,9 +1622,9 @@ func (x *Exec) fireAfter(st *State, fr *frame, ct *Contract) {
 			}
 			vv := ctx.eval(h.ValX)
 			st.ghostWrite(g, key, st.term(vv))
+			x.e.hookHits[ct.Name+"|"+h.Src] = true
 		}()
 	}
-	fr.curText = ""
 }
 
 func (e *Engine) sourceLine(file string, line int) string {
